@@ -119,7 +119,7 @@ def first_diff(a, b):
 
 
 REV = {"L": "G", "G": "L", "E": "E", "P": "P"}
-TPL_NAMES = ["lt", "eq", "in-list", "in-map", "lookup", "le", "gt"]
+TPL_NAMES = ["lt", "eq", "in-list", "in-map", "lookup", "le", "gt", "in-map2", "lookup2"]
 
 
 def check_mode(r, mode, exe):
@@ -163,15 +163,15 @@ def check_mode(r, mode, exe):
             d = dict(x.split("=") for x in rf[1:]) if rf[0] != "panic" else {}
             cv = f"valv {f[2]}"
             if rf[0] == "panic":
-                r.oracle_failure(cv, f"[{feats}] comparing a value with itself panics", "panic:self" + sfx)
+                r.oracle_failure(cv, f"[{feats}] comparing a value with itself panics", "panic:self")
                 continue
             want_eq = "0" if nan else "1"
             if d["selfcmp"] != "E" or d["clonecmp"] != "E":
-                r.oracle_failure(cv, f"[{feats}] cmp is not reflexive: {res}", "refl:" + rf[0] + sfx)
+                r.oracle_failure(cv, f"[{feats}] cmp is not reflexive: {res}", "refl:" + rf[0])
             if d["clonehash"] != "1":
-                r.oracle_failure(cv, f"[{feats}] a clone hashes differently: {res}", "clone-hash:" + rf[0] + sfx)
+                r.oracle_failure(cv, f"[{feats}] a clone hashes differently: {res}", "clone-hash:" + rf[0])
             if not nan and (d["selfeq"] != want_eq or d["cloneeq"] != want_eq):
-                r.oracle_failure(cv, f"[{feats}] == is not reflexive: {res}", "eq-refl:" + rf[0] + sfx)
+                r.oracle_failure(cv, f"[{feats}] == is not reflexive: {res}", "eq-refl:" + rf[0])
             m = model_of.get(case)
             if m is not None:
                 mf = m.split()
@@ -184,7 +184,7 @@ def check_mode(r, mode, exe):
                     ks = [k for k, _ in trees[i][1]]
                     fd = first_diff(ks[0], ks[1]) if len(ks) > 1 else "?"
                     r.oracle_failure(cv, f"[{feats}] a map built from {md.get('len')} pairs whose keys are pairwise unequal under Ord holds {d.get('len')} entries",
-                                     "map-lost-entry:" + fd + sfx)
+                                     "map-lost-entry:" + fd)
                 elif not nan and (md.get("selfeq") != d["selfeq"] or md.get("selfcmp") != d["selfcmp"]):
                     r.model_disagreement(cv, res, m)
         elif st == "pair":
@@ -200,12 +200,12 @@ def check_mode(r, mode, exe):
             if rf[0] != "ok":
                 for item in rf[2].split(" || "):
                     head = item.split(" ", 1)[0]           # filter:law
-                    r.oracle_failure(case, f"[{feats}] {item[:300]}", "filter:" + head + sfx)
+                    r.oracle_failure(case, f"[{feats}] {item[:300]}", "filter:" + head)
         elif st in ("batch", "slicef"):
             r.count((st, mode, case), int(f[1]) > 0 and f[2] != "0")
             r.hist[st + "-result"][res.split(":")[0]] += 1
             if res == "panic":
-                r.oracle_failure(case, f"[{feats}] {st} panics", f"panic:{st}" + sfx)
+                r.oracle_failure(case, f"[{feats}] {st} panics", f"panic:{st}")
             m = model_of.get(case)
             if m is not None and m != res:
                 r.model_disagreement(case, res, m)
@@ -231,7 +231,7 @@ def check_mode(r, mode, exe):
             nonlocal fd
             if fd is None:
                 fd = first_diff(trees[i], trees[j])
-            return f"{law}:{fd}{sfx}"
+            return f"{law}:{fd}"
         if "P" in (c, e, h):
             r.oracle_failure(pv(i, j), f"[{feats}] cmp/==/hash panics: {c} {e} {h}", site("panic"))
             continue
@@ -275,7 +275,7 @@ def check_mode(r, mode, exe):
         ks = sorted({kind[i], kind[j]} | ({kind[wit]} if wit is not None else set()))
         r.oracle_failure(f"triple {vals[i]} {vals[j]} {vals[wit] if wit is not None else '?'}",
                          f"[{feats}] cmp is not transitive: cmp(a,b)={cij}" + (f", cmp(a,c)={M[(i, wit)][0]}, cmp(c,b)={M[(wit, j)][0]}" if wit is not None else ""),
-                         "trans:" + "~".join(ks) + sfx)
+                         "trans:" + "~".join(ks))
     r.count(("rank-check", mode), True, n=len(idx) ** 2)
 
     # ---------------------------------------------------------------- template operators
@@ -286,17 +286,22 @@ def check_mode(r, mode, exe):
         c, e, h = M[(i, j)]
         if "P" in (c, e, h):
             continue
-        exp = [str(int(c == "L")), e, e, None, None, str(int(c in "LE")), str(int(c == "G"))]
+        exp = [str(int(c == "L")), e, e, None, None, str(int(c in "LE")), str(int(c == "G")), None, None]
         fd = first_diff(trees[i], trees[j])
         for k, name in enumerate(TPL_NAMES):
             if t[k] == "P":
-                r.oracle_failure(pv(i, j), f"[{feats}] template `{name}` panics", f"panic:tpl-{name}:{fd}{sfx}")
+                r.oracle_failure(pv(i, j), f"[{feats}] template `{name}` panics", f"panic:tpl-{name}:{fd}")
             elif exp[k] is not None and t[k] != exp[k]:
-                r.oracle_failure(pv(i, j), f"[{feats}] template `{name}` gives {t[k]} but Value::cmp={c}, ==:{e}", f"tpl-{name}:{fd}{sfx}")
+                r.oracle_failure(pv(i, j), f"[{feats}] template `{name}` gives {t[k]} but Value::cmp={c}, ==:{e}", f"tpl-{name}:{fd}")
         if t[3] != t[4]:
-            r.oracle_failure(pv(i, j), f"[{feats}] `a in {{b:1}}` is {t[3]} but `{{b:1}}[a] is defined` is {t[4]}", f"in-vs-lookup:{fd}{sfx}")
+            r.oracle_failure(pv(i, j), f"[{feats}] `a in {{b:1}}` is {t[3]} but `{{b:1}}[a] is defined` is {t[4]}", f"in-vs-lookup:{fd}")
         if not (nan[i] or nan[j]) and t[4] != e:
-            r.oracle_failure(pv(i, j), f"[{feats}] `{{b:1}}[a] is defined` is {t[4]} but (a==b)={e}", f"lookup-vs-eq:{fd}{sfx}")
+            r.oracle_failure(pv(i, j), f"[{feats}] `{{b:1}}[a] is defined` is {t[4]} but (a==b)={e}", f"lookup-vs-eq:{fd}")
+        # the same with a second entry in the map (an IndexMap hashes only when it has more than one entry)
+        if t[7] != t[8]:
+            r.oracle_failure(pv(i, j), f"[{feats}] `a in {{b:1,S:2}}` is {t[7]} but `{{b:1,S:2}}[a] is defined` is {t[8]}", f"in-vs-lookup:{fd}")
+        if not (nan[i] or nan[j]) and t[8] != e:
+            r.oracle_failure(pv(i, j), f"[{feats}] `{{b:1,S:2}}[a] is defined` is {t[8]} but (a==b)={e}", f"lookup-vs-eq:{fd}")
     r.sample({"mode": mode, "pair": [vals[idx[5]], vals[idx[40]]], "cmp eq samehash": M[(idx[5], idx[40])]})
     r.sample({"mode": mode, "pair": [vals[idx[-3]], vals[idx[-4]]], "cmp eq samehash": M[(idx[-3], idx[-4])]})
 
